@@ -38,7 +38,7 @@ def molecules(seed, n=3):
 
 def coord_files(z, xyz, cell):
     n = len(z)
-    grid = np.arange(8.0).reshape(2, 2, 2) * 0.01 + 0.1
+    grid = np.arange(24.0).reshape(2, 3, 4) * 0.01 + 0.1  # unequal point counts: step vectors differ per direction
     orbs = [("Alpha", [(-0.5, 2.0, "1a", [1.0])])]
     from ref import vendors
 
@@ -54,12 +54,14 @@ def coord_files(z, xyz, cell):
         "charmm": ("m.crd", writers.crd(xyz, "t", weights=model_masses(z))),
         "fchk": ("m.fchk", wfwriters.fchk({"title": "t", "command": "SP", "lot": "RHF", "basis": "gen", "z": z, "cores": [float(v) for v in z], "xyz": xyz, "charge": int(sum(z) - 2),
                                            "shells": [(0, 0, [1.25], [1.0], None)], "nalpha": 1, "nbeta": 1, "ea": [-0.5], "ca": [[1.0]], "masses_amu": model_masses(z), "energy": -1.5})),
+        "json_qcschema-massnumbers": ("mn.json", json.dumps({"schema_name": "qcschema_molecule", "schema_version": 2, "symbols": [writers.sym(zi) for zi in z], "geometry": [float(v) for v in xyz.ravel()],
+                                                            "mass_numbers": [int(round(m)) for m in model_masses(z)], "molecular_charge": 0, "molecular_multiplicity": 1 + sum(z) % 2})),
         "json_qcschema": ("m.json", json.dumps({"schema_name": "qcschema_molecule", "schema_version": 2, "symbols": [writers.sym(zi) for zi in z], "geometry": [float(v) for v in xyz.ravel()],
                                                 "masses": model_masses(z), "molecular_charge": 0, "molecular_multiplicity": 1 + sum(z) % 2})),
         "poscar": ("POSCAR", writers.poscar(sorted(z, reverse=True), xyz[np.argsort([-v for v in z], kind="stable")], cell, "t")[0]),
         "chgcar": ("CHGCAR", writers.poscar(sorted(z, reverse=True), xyz[np.argsort([-v for v in z], kind="stable")], cell, "t", grid=grid, grid_kind="chgcar")[0]),
         "locpot": ("LOCPOT", writers.poscar(sorted(z, reverse=True), xyz[np.argsort([-v for v in z], kind="stable")], cell, "t", grid=grid, grid_kind="locpot")[0]),
-        "cube": ("m.cube", writers.cube(z, xyz, np.zeros(3), cell / 2, grid, "t")),
+        "cube": ("m.cube", writers.cube(z, xyz, np.zeros(3), cell / np.array(grid.shape)[:, None], grid, "t")),
         "gaussianinput": ("m.com", writers.gaussian_input(z, xyz, "t")),
         "molden-au": ("au.molden", vendors.write_molden([(zi, *r) for zi, r in zip(z, xyz)], shells, orbs, "AU")),
         "molden-angs": ("angs.molden", vendors.write_molden([(zi, *r) for zi, r in zip(z, xyz)], shells, orbs, "Angs")),
@@ -93,7 +95,7 @@ def model_pairs(ctx):
             with warnings.catch_warnings():
                 warnings.simplefilter("ignore")
                 try:
-                    loaded[name] = load_one(path, fmt="json_qcschema" if name == "json_qcschema" else None)
+                    loaded[name] = load_one(path, fmt="json_qcschema" if name.startswith("json_qcschema") else None)
                 except Exception as exc:  # noqa: BLE001
                     ctx.violation("load", f"model:{name}:rejected", {"format": name, "molecule": imol}, f"reference file for {name} rejected: {exc!r} caused by {exc.__cause__!r}")
         vasp = {"poscar", "chgcar", "locpot"}
@@ -107,6 +109,8 @@ def model_pairs(ctx):
             "cellvecs": {n: (loaded[n].cellvecs, cell, 2e-5 * ANG) for n in ("extxyz", "gromacs", "poscar", "chgcar", "locpot", "cube") if n in loaded},
             # masses: every carrier prints unified atomic mass units; the object must hold electron masses
             "atmasses": {n: (loaded[n].atmasses, np.array(model_masses(z)) * units.amu, 1e-5 * units.amu if n == "charmm" else 1e-6 * units.amu) for n in ("extxyz", "charmm", "fchk", "json_qcschema") if n in loaded},
+            # mass numbers (integers, in u) stand in for the masses when a QCSchema file gives nothing else
+            "atmasses(mass numbers)": {n: (loaded[n].atmasses, np.round(model_masses(z)) * units.amu, 1e-9 * units.amu) for n in ("json_qcschema-massnumbers",) if n in loaded},
         }
         for qname, per in quantities.items():
             # every format against the model (unit factor typed by hand) ...
@@ -144,7 +148,12 @@ def model_pairs(ctx):
         if "locpot" in loaded:
             checks.append(("potential", "locpot", loaded["locpot"].cube.data[1, 0, 1], grid[1, 0, 1], 1e-8))
         if "cube" in loaded:
-            checks.append(("grid-axes", "cube", loaded["cube"].cube.axes[0, 0], cell[0, 0] / 2, 1e-6))
+            checks.append(("grid-axes", "cube", loaded["cube"].cube.axes[0, 0], cell[0, 0] / grid.shape[0], 1e-6))
+        for vname in ("chgcar", "locpot"):
+            if vname in loaded:
+                ax = loaded[vname].cube.axes
+                for i, j in ((0, 0), (1, 0), (1, 1), (2, 0), (2, 1), (2, 2)):  # step vector i = cell vector i / number of points along i
+                    checks.append((f"grid-axes[{i},{j}]", vname, ax[i, j], cell[i, j] / grid.shape[i], 1e-6))
         if "extxyz" in loaded:
             checks.append(("energy(passed-through)", "extxyz", loaded["extxyz"].energy, -1.5, 1e-12))
         for q, n, got, want, rel in checks:
